@@ -9,3 +9,27 @@ func VerifC05Rotate(ql QueryLog) { ql.(*queryLog).checkAndRotate(context.Backgro
 
 // VerifC05ForceRotate rotates unconditionally.
 func VerifC05ForceRotate(ql QueryLog) error { return ql.(*queryLog).rotate(context.Background()) }
+
+// VerifC05FlushAfterFill is what happens when a recorded query fills the
+// memory buffer: Add marks a flush as pending (under the buffer lock) and the
+// flush goroutine it starts runs flushLogBuffer.  The buffer size is taken to
+// be the current number of entries; with an empty buffer, or a flush already
+// pending, Add starts nothing.
+func VerifC05FlushAfterFill(ql QueryLog) {
+	l := ql.(*queryLog)
+
+	start := false
+	func() {
+		l.bufferLock.Lock()
+		defer l.bufferLock.Unlock()
+
+		if !l.flushPending && l.buffer.Len() > 0 {
+			l.flushPending = true
+			start = true
+		}
+	}()
+
+	if start {
+		_ = l.flushLogBuffer(context.Background())
+	}
+}
